@@ -22,7 +22,10 @@ RULE = ("cases = chain of 1..3 classes (attrs: slots x frozen x cache_hash x wea
         "synthetic module's own code (classes are exec'd inside the module, a quarter of them nested in a namespace class: __module__/__qualname__ arise as for a user), int/str/mutable-box valued -- int-valued fields hold, with probability 0.4, an unusual value instead: attr.NOTHING, None, "
         "NotImplemented, Ellipsis, False, 0, '', (), NaN, an int subclass, the cache field's name as a string, an instance of the same "
         "class (harness-only variation: the model sees opaque tokens) --, names shared between classes so fields are inherited and re-declared); "
-        "plain classes without / with empty / with named __slots__) x operation (copy, deepcopy, pickle protocol 0..5 "
+        "plain classes without / with empty / with named __slots__; a fifth of the chains rooted at Exception with auto_exc=True (copied through "
+        "BaseException.__reduce__ as cls(*args) + __setstate__(__dict__)); chains whose init fields all have default factories, left unpassed at "
+        "construction (the factory yields the field's value while the harness builds an instance and a DIFFERENT value whenever it runs during "
+        "the operation, so any re-derived field shows)) x operation (copy, deepcopy, pickle protocol 0..5 "
         "with the C and the Python pickler, legacy tuple __setstate__ of several lengths) x history (hashed before, one "
         "field changed after hashing by assignment / in place / raw, init=False fields assigned). Single classes are "
         "enumerated exhaustively over the option space, chains of 2 and 3 by a structured random generator biased to "
@@ -37,6 +40,9 @@ ASSUMPTIONS = [
     "single-inheritance chains of at most 3 classes; no converters/validators/hooks; all fields take part in eq and hash",
     "unusual field values are harness-only: the verdict must be the same for every value; NaN (unequal to itself) is used only where "
     "nothing compares or hashes it by value (no generated __eq__; copy/deepcopy or no generated __hash__) and is recognised by v != v",
+    "exception chains: every attrs class has auto_exc=True, no getstate_setstate=False, no user-written state methods, no legacy tuple call, "
+    "no kw_only fields; `args` is modelled as the construction-time value of each init field (an in-place change is visible through it, an "
+    "assignment is not); a factory whose result is attr.NOTHING is not used (NOTHING as an *argument* means 'not passed')",
     "hash equality is compared as a pattern (hash(copy) == hash(fresh equal instance)), assuming no collision between the few distinct tokens",
 ]
 EXHAUSTIVE = {"quick": False, "thorough": False}
@@ -133,6 +139,7 @@ def rand_plain_cls(rng):
 
 
 def rand_chain(rng, n=None):
+    R.EXC[0] = False
     n = n or rng.choice([1, 2, 2, 2, 3, 3])
     pool = rng.sample(NAMES, rng.choice([2, 3, 3, 4, 5]))      # a small pool makes re-declaration likely
     chain = []
@@ -147,6 +154,28 @@ def rand_chain(rng, n=None):
         if c["kind"] == "attrs" and R.hash_decision(chain, k) == "gen" and rng.random() < 0.55:
             c["cacheHash"] = True
     return chain
+
+
+def as_exception_chain(chain):
+    """the same classes below `Exception` with auto_exc=True: no eq/hash is generated (so no cache_hash), the
+    state methods are only reached through BaseException.__reduce__ / __setstate__; opt-outs and user-written
+    state methods are left to the ordinary chains"""
+    out = []
+    for c in chain:
+        c = dict(c, userGS=False, cacheHash=False)
+        if c["gs"] == "f":
+            c["gs"] = "none"
+        out.append(c)
+    return out
+
+
+def with_factories(chain):
+    """harness-only: every init field gets a default factory (left unpassed at construction when cfg.passArgs is
+    false); the factory yields the field's value while the harness builds an instance and another value otherwise"""
+    # a factory whose result is attr.NOTHING is not used: NOTHING *as an argument* of a Factory-defaulted parameter
+    # means "not passed" (C01's business), which an exception's cls(*args) copy would then trip over
+    return [dict(c, fields=[dict(f, factory=True, special=("none" if f.get("special") == "nothing" else f.get("special")))
+                            if f["init"] else f for f in c["fields"]]) for c in chain]
 
 
 # ------------------------------------------------------------------------------------------------ operations
@@ -170,9 +199,11 @@ def histories(chain, rng, full):
     return out
 
 
-def cases_for_chain(chain, rng, full):
+def cases_for_chain(chain, rng, full, exc=False):
+    R.EXC[0] = exc
     has_unset = any(not f["init"] for f in B.leaf_fields(chain))
-    ops = list(OPS) + legacy_ops(chain)
+    has_factory = any(f.get("factory") for f in B.leaf_fields(chain))
+    ops = list(OPS) + ([] if exc else legacy_ops(chain))
     hs = histories(chain, rng, full)
     if full:
         combos = list(itertools.product(ops, hs))
@@ -181,12 +212,14 @@ def cases_for_chain(chain, rng, full):
         h0 = rng.choice(hs)
         lows, highs = OPS[2:4], OPS[4:]
         focus = ["copy", "deepcopy", rng.choice(lows), rng.choice(highs)]
-        combos = ([(o, h0) for o in OPS] + [(o, h0) for o in rng.sample(legacy_ops(chain), 2)]
+        combos = ([(o, h0) for o in OPS] + ([] if exc else [(o, h0) for o in rng.sample(legacy_ops(chain), 2)])
                   + [(o, h) for o in focus for h in hs if h != h0])
     for op, (hashed, m, how) in combos:
+        R.EXC[0] = exc
         case = {"chain": _settle_specials(chain, op, rng), "op": op, "hashedBefore": hashed, "mutate": m,
-                "assignUnset": True if has_unset else rng.random() < 0.5,
-                "cfg": {"mutateHow": how, "pickler": rng.choice(["c", "c", "py"])}}
+                "assignUnset": True if has_unset else rng.random() < 0.5, "exc": exc, "mutInPlace": how == "inplace",
+                "cfg": {"mutateHow": how, "pickler": rng.choice(["c", "c", "py"]),
+                        "passArgs": (rng.random() < 0.3) if has_factory else True}}
         if R.wf(case):
             yield case
 
@@ -244,10 +277,24 @@ def gen_cases(tier, rng):
         yield from cases_for_chain(chain, rng, full)
     for rep in range(5 if not full else 40):
         for chain in shaped_chains(rng):
-            yield from cases_for_chain(chain, rng, full and rep < 4)
+            if rng.random() < 0.2:
+                ch = as_exception_chain(chain)
+                yield from cases_for_chain(with_factories(ch) if rng.random() < 0.5 else ch, rng, False, exc=True)
+            else:
+                yield from cases_for_chain(chain, rng, full and rep < 4)
     n = 3200 if not full else 200000
-    for _ in range(n):
-        yield from cases_for_chain(rand_chain(rng), rng, False)
+    for i in range(n):
+        chain = rand_chain(rng)
+        r = rng.random()
+        if r < 0.2:          # exception classes (auto_exc), half of them with default factories left unpassed
+            chain = as_exception_chain(chain)
+            if rng.random() < 0.5:
+                chain = with_factories(chain)
+            yield from cases_for_chain(chain, rng, False, exc=True)
+        elif r < 0.3:
+            yield from cases_for_chain(with_factories(chain), rng, False)
+        else:
+            yield from cases_for_chain(chain, rng, False)
 
 
 # ------------------------------------------------------------------------------------------------ reporting
@@ -256,10 +303,12 @@ def _pattern(chain):
 
 
 def nontrivial(case, model):
+    R.EXC[0] = bool(case.get("exc"))
     return bool(R.names(case["chain"])) and isinstance(model, dict) and model.get("exc") is None
 
 
 def dist(case, obs):
+    R.EXC[0] = bool(case.get("exc"))
     chain = case["chain"]
     op = case["op"]
     leaf = chain[-1]
@@ -274,6 +323,7 @@ def dist(case, obs):
         "exc": obs.get("exc") if isinstance(obs, dict) else "?",
         "cacheAfter": obs.get("cacheAfter") if isinstance(obs, dict) else "?",
         "front_end": leaf.get("api") + ("/" + leaf["front"] if leaf.get("front", "class") != "class" else "") + ("/nested" if leaf.get("nested") else ""),
+        "exception": ("auto_exc" if case.get("exc") else "no") + ("+factories" + ("" if case.get("cfg", {}).get("passArgs", True) else " unpassed") if any(f.get("factory") for f in B.leaf_fields(chain)) else ""),
         "unusual_values": ",".join(sorted({f["special"] for f in B.leaf_fields(chain) if f.get("special")})) or "-",
     }
 
@@ -311,6 +361,9 @@ def _variants(case):
                     if not c2["slots"]:
                         c2["plainSlots"] = []
                     yield dict(case, chain=chain[:i] + [c2] + chain[i + 1:])
+    if any(f.get("factory") for c in chain for f in c["fields"]):
+        yield dict(case, chain=[dict(c, fields=[{k: v for k, v in f.items() if k != "factory"} for f in c["fields"]]) for c in chain],
+                   cfg=dict(case.get("cfg", {}), passArgs=True))
     if case["hashedBefore"]:
         yield dict(case, hashedBefore=False)
     if case.get("mutate") is not None:
@@ -329,13 +382,18 @@ def shrink(case):
     for v in _variants(case):
         if v.get("mutate") is not None and v["mutate"] not in R.names(v["chain"]):
             v = dict(v, mutate=None)
+        if v.get("mutate") is None and v.get("mutInPlace"):
+            v = dict(v, mutInPlace=False)
         if R.wf(v):
             yield v
 
 
 def neighbours(case, rng):
     chain = case["chain"]
-    yield from cases_for_chain(chain, rng, True)
+    exc = bool(case.get("exc"))
+    yield from cases_for_chain(chain, rng, True, exc)
+    if exc:
+        return
     for i, c in enumerate(chain):
         if c["kind"] != "attrs":
             continue
@@ -359,7 +417,8 @@ LEVEL_TEXT = (
     "C10_high_protocols_agree, C10_default_reduction_fails_iff (K11/K10b predicates are exact), C10_own_pair_unless_opted_out (an attrs class resolves a base's generated pair only with "
     "getstate_setstate=False), C10_generated_state_never_dropped, C10_inherited_pair_exact (exactly the fields the "
     "base lacks are lost), C10_model_meets_spec (forall c, wf c -> known c = [] -> spec c (model c)), and decide-checked witness theorems "
-    "for K1, K2, K5, K10b, K11 plus regression theorems for the repaired K4, K10a, K10c. Proved about the model; the model is tied to /repo by a differential correspondence over "
+    "for K1, K2, K5, K10b, K10d, K10e, K11, C10_exception_roundtrip (auto_exc classes: cls(*args) + __setstate__(__dict__) brings every field back "
+    "outside K10d/K10e, arbitrary chains), C10_init_placement (what the generated __init__ leaves where, arbitrary field lists), plus regression theorems for the repaired K4, K10a, K10c. Proved about the model; the model is tied to /repo by a differential correspondence over "
     "chains of <= 3 classes x operations x histories (see rule). Observed, not proved: CPython's object.__reduce_ex__/copyreg/copy/pickle "
     "fragment (modelled as small trusted functions and diff-tested with both picklers), that the result is a distinct object of the same "
     "class, hash collisions between tokens, class creation itself. Not covered: multiple inheritance, per-field "
